@@ -12,8 +12,8 @@ echo "suite with change: $T"
 LIBS_W="$WT/_build/bin/libmfhdf.a $WT/_build/bin/libhdf.a"
 LIBS_R="/repo/_build/bin/libmfhdf.a /repo/_build/bin/libhdf.a"
 mkdir -p /tmp/seed/demo_$NAME && cd /tmp/seed/demo_$NAME
-gcc -w -I$WT/hdf/src -I$WT/mfhdf/src -I$WT/_build $WT/seed_out/demo.c $LIBS_W -ljpeg -lz -lm -o demo_with || { echo "demo compile failed"; exit 2; }
-gcc -w -I/repo/hdf/src -I/repo/mfhdf/src -I/repo/_build $WT/seed_out/demo.c $LIBS_R -ljpeg -lz -lm -o demo_without || { echo "demo compile failed"; exit 2; }
+gcc -w -I$WT/hdf/src -I$WT/mfhdf/src -I$WT/_build $WT/seed_out/demo.c $LIBS_W -ljpeg -lz -lm -ldl -o demo_with || { echo "demo compile failed"; exit 2; }
+gcc -w -I/repo/hdf/src -I/repo/mfhdf/src -I/repo/_build $WT/seed_out/demo.c $LIBS_R -ljpeg -lz -lm -ldl -o demo_without || { echo "demo compile failed"; exit 2; }
 (./demo_with >/dev/null 2>&1); W=$?
 (./demo_without >/dev/null 2>&1); O=$?
 echo "demo with change: exit $W ; without: exit $O"
